@@ -39,7 +39,8 @@ def gen_case(rng, tier, idx):
     plain = idx % 4 == 0
     sched = gen_sched(rng, ('P',) if plain else ('P', 'U', 'R', 'X'), budget_choices=(5, 20, 60))
     if rng.random() < 0.65:
-        spec = gen_mdp_spec(rng, proper=rng.random() < 0.7)
+        long_run = rng.random() < 0.03      # long roll-outs with strong discounting: discount**t leaves the normal float range
+        spec = gen_mdp_spec(rng, proper=(rng.random() < 0.7) and not long_run, discounts=(0.1, 0.5) if long_run else (0.1, 0.5, 0.8, 0.9, 0.95, 0.99, 1.0))
         v = MDPView(spec)
         kind = rng.choice(('functional', 'tabular', 'deterministic'))
         pol = []
@@ -48,11 +49,11 @@ def gen_case(rng, tier, idx):
             if kind == 'deterministic':
                 pol.append([[rng.choice(acts), 8]])
             else:
-                k = rng.randint(1, len(acts))
+                k = rng.randint(1, len(acts)) if rng.random() < 0.4 else len(acts)
                 sub = sorted(rng.sample(acts, k))
                 pol.append([[a, p] for a, p in zip(sub, dyadic(rng, k))])
         cfg = dict(world='mdp', policy=kind, pol=pol, start=rng.choice([None] + list(range(v.N))),
-                   cap=rng.choice((0, 1, 2, 5, 50)), cap_rel=rng.choice((-1, 0, 1)), nsim=rng.choice((1, 3, 10)),
+                   cap=rng.choice((400, 1200)) if long_run else rng.choice((0, 1, 2, 5, 50)), cap_rel=rng.choice((-1, 0, 1)), nsim=rng.choice((1, 3, 10)),
                    ecap=rng.choice((0, 1, 2, 5, 30)))
     else:
         spec = gen_pomdp_spec(rng)
@@ -96,7 +97,7 @@ def execute(case, script=None):
         ctx.W = game_W(view)
     ctx.declare_probes('cap_before_absorption', 'cap_at_absorption', 'cap_after_absorption', 'cap_zero', 'start_absorbing',
                        'start_sampled', 'stopped_by_cap', 'stopped_by_absorption', 'pomdp_rollouts', 'mdp_rollouts',
-                       'deterministic_exact_eval')
+                       'deterministic_exact_eval', 'long_rollout_400_steps')
     sched = make_scheduler(case, script, ctx)
     try:
         if cfg['world'] == 'mdp':
@@ -193,7 +194,9 @@ def _exec_mdp(view, cfg, ctx, sched):
         ctx.probe('cap_zero')
     tr = run(cap, rng, 'rollout#1')
     ctx.probe('mdp_rollouts')
-    _check_mdp_rollout(ctx, view, pol_tab, tr, start, cap, 'rollout#1')
+    _p, _n = _check_mdp_rollout(ctx, view, pol_tab, tr, start, cap, 'rollout#1')
+    if _n >= 400:
+        ctx.probe('long_rollout_400_steps')
     _check_returns(ctx, Policy, tr.reward, g, 'rollout#1')
     # 2. long roll-out to learn the absorption time T under this schedule, then F7: same decisions, cap at T+rel
     n0 = len(sched.log)
@@ -314,8 +317,10 @@ def _check_returns(ctx, Policy, rewards, g, tag):
         G = r + g * G
         ref.append(G)
     ref = ref[::-1]
-    ctx.check(len(rets) == len(ref) and all(close(a, b, 1e-9, 1e-9) for a, b in zip(rets, ref)), 'returns-recursion',
-              lambda: f"{tag}: calc_returns({rewards}, {g}) = {rets}, backward recursion gives {ref}")
+    bad = [i for i, (a, b) in enumerate(zip(rets, ref)) if not close(a, b, 1e-9, 1e-9)]
+    ctx.check(len(rets) == len(ref) and not bad, 'returns-recursion',
+              lambda: f"{tag}: calc_returns over {len(rewards)} rewards at discount {g}: entry {bad[0] if bad else '-'} is "
+              f"{rets[bad[0]] if bad else None!r}, the backward recursion gives {ref[bad[0]] if bad else None!r} (lengths {len(rets)}/{len(ref)})")
 
 
 # ---------------------------------------------------------------------- POMDP
